@@ -123,6 +123,12 @@ func (sch *Scheduler) requeue(ent container.QueueEnt, reason string) {
 		return
 	}
 	defer sch.uuidUnlock(uuid)
+	if cur, ok := sch.queue.Get(uuid); !ok || cur.State != arvados.ContainerStateLocked {
+		// The snapshot this decision was based on is stale
+		// (e.g., already requeued and locked again by a later
+		// pass): do nothing, like lockContainer does.
+		return
+	}
 	logger := sch.logger.WithFields(logrus.Fields{
 		"ContainerUUID": uuid,
 		"State":         ent.Container.State,
